@@ -278,6 +278,27 @@ class Session:
         self.res.probes["reads"] += 1
         if self.mutated:
             self.res.nontrivial = True
+        if what in LOOKUPS[:9] and not getattr(self, "_probing", False):
+            # an ordinary caller idiom: index the lookup with a key that is not there (KeyError
+            # expected).  Reading must not change what the lookup says afterwards.
+            absent = "__no such name__"
+            if what in ("nodes_by_link", "origins", "destinations", "origins_by_node", "destinations_by_node"):
+                kind = {"nodes_by_link": "l", "origins": "o", "destinations": "d", "origins_by_node": "n", "destinations_by_node": "n"}[what]
+                try:
+                    have = set(map(id, getattr(net, what).keys()))
+                except Exception:
+                    have = set()
+                absent = next((o for r, o in self.U.objs.items() if r[0] == kind and id(o) not in have), None)
+            if absent is not None:
+                try:
+                    getattr(net, what)[absent]
+                except Exception:
+                    pass
+                self._probing = True
+                try:
+                    self.read(what, where + " (after an indexing read with an absent key)", tag_prefix)
+                finally:
+                    self._probing = False
 
     def note_cached(self, mutator: str):
         """Reach probe: which memoised lookups were populated when a mutator started."""
